@@ -43,3 +43,147 @@ REG.add(Contract(F_EB, 'EAM_Potential_Builder_FS._density_to_potential_form_dict
     result=Outer, ensures=_post, post_names=['no-A->B-declared-twice', 'only-declared-pairs', 'every-declared-pair-with-the-function-its-definition-denotes'],
     invariants={0: _inv}, ghost={'outdict': Outer}, raises_when=_raises, on_raise=lambda v, old: [], instantiate_int_foralls=True,
     carries=['post', 'preserve/0', 'raises'], props=['C04', 'C20']))
+
+# ---------------------------------------------------------------- element order of EAM tables (C03, C04, C12): [EAM-Embed] order, then the zero-filled species in sorted order
+from pyvc.spec import SpecSeq
+from pyvc.symexec import odict_wf
+REG.add_class(ClassDecl('atsim/potentials/config/_common.py', 'EAMTuple', {'species': T.Str, 'potential_form_instance': T.Obj('PFInstance')}, external=True))    # EAMEmbedTuple / EAMDensityTuple rows
+REG.add_class(ClassDecl(F_EB, 'EAM_Potential_Builder_O', {}, pyname='EAM_Potential_Builder'))
+ET_ = ObjSort('EAMTuple'); ETL = z3.SeqSort(ET_)
+e_sp = field('EAMTuple', 'species', StrS); e_inst = field('EAMTuple', 'potential_form_instance', BU.PFI)
+species_seq = SpecSeq('eam_species_seq', [ETL], lambda rows, k: z3.Unit(e_sp(rows[k])), result=z3.SeqSort(StrS), elem_len=1)
+FnDict = T.ODict(T.Str, T.Fn)
+
+StrArr = z3.ArraySort(StrS, BoolS)
+embed_members = z3.Function('species_with_embedding', ETL, StrArr)
+def embed_members_def():
+    rows = z3.Const('rows!em', ETL); x = z3.String('x!em'); j = z3.Int('j!em')
+    return [z3.ForAll([rows, x], z3.Select(embed_members(rows), x) == z3.Exists([j], z3.And(0 <= j, j < z3.Length(rows), e_sp(rows[j]) == x)), patterns=[z3.Select(embed_members(rows), x)])]
+def distinct_species(rows, n):
+    i, j = z3.Int('i!u'), z3.Int('j!u')
+    return z3.ForAll([i, j], z3.Implies(z3.And(0 <= i, i < j, j < n), e_sp(rows[i]) != e_sp(rows[j])))
+def _tp_values(d, rows, pfb):
+    j = z3.Int('j!tv')
+    return z3.ForAll([j], z3.Implies(z3.And(0 <= j, j < z3.Length(rows)), z3.Select(d.get, e_sp(rows[j])) == BU.DEN(pfb, e_inst(rows[j]))), patterns=[rows[j]])
+def _tp_table(d, rows, n, pfb):
+    x = z3.String('x!t'); j = z3.Int('j!t')
+    return [d.order == species_seq(rows, n),
+            z3.ForAll([j], z3.Implies(z3.And(0 <= j, j < n), z3.And(z3.Select(d.has, e_sp(rows[j])), z3.Select(d.get, e_sp(rows[j])) == BU.DEN(pfb, e_inst(rows[j]))))),
+            z3.ForAll([x], z3.Implies(z3.Select(d.has, x), z3.Exists([j], z3.And(0 <= j, j < n, e_sp(rows[j]) == x))))]
+REG.add(Contract(F_EB, 'EAM_Potential_Builder._to_potential_form_dict',
+    params=[('self', T.Obj('EAM_Potential_Builder_O')), ('tuple_list', T.List(T.Obj('EAMTuple'))), ('potential_form_builder', T.Obj('Potential_Form_Builder'))],
+    requires=lambda v: [distinct_species(v.tuple_list, z3.Length(v.tuple_list))],        # the strict parser rejects a section with the same key twice (C20)
+    # (the key set is named by embed_members rather than spelled out with quantifiers: the spelled-out form sets off a matching loop at call sites)
+    result=FnDict, ensures=lambda v, old, res: [res.order == species_seq(v.tuple_list, z3.Length(v.tuple_list)), _tp_values(res, v.tuple_list, v.potential_form_builder), res.has == embed_members(v.tuple_list)],
+    post_names=['keys-in-the-order-of-the-entries', 'each-entry-with-the-function-its-definition-denotes', 'key-set-is-exactly-the-species-of-the-entries'],
+    definitions=embed_members_def,
+    invariants={0: lambda v, old: _tp_table(v.d, v.tuple_list, v._i0, v.potential_form_builder)}, ghost={'d': FnDict}, instantiate_int_foralls=True,
+    raises_when=lambda v, old, exc: [z3.BoolVal(exc.cls in ('ConfigurationException', 'UnknownModifierException', 'UnknownPotentialFormException'))], on_raise=lambda v, old: [],
+    raises_classes=['ConfigurationException', 'UnknownModifierException', 'UnknownPotentialFormException'],
+    carries=['post', 'preserve/0'], props=['C03', 'C12']))
+
+StrSet = T.Set(T.Str)
+def _species_set_post(rows_name):
+    def post(v, old, res):
+        x = z3.String('x!s'); rows = getattr(v, rows_name)
+        return [z3.ForAll([x], z3.Select(res.has, x) == z3.Contains(species_seq(rows, z3.Length(rows)), z3.Unit(x)))]
+    return post
+for _n, _a in (('_embed_species', 'embed'), ('_density_species', 'density')):
+    REG.add(Contract(F_EB, 'EAM_Potential_Builder.' + _n, params=[('self', T.Obj('EAM_Potential_Builder_O')), (_a, T.List(T.Obj('EAMTuple')))], result=StrSet,
+        ensures=_species_set_post(_a), post_names=['exactly-the-species-of-the-entries'], comprehensions={0: (species_seq, lambda v, _a=_a: [getattr(v, _a)])},
+        instantiate_int_foralls=True, carries=['post'], props=['C03', 'C12']))
+
+from pyvc.values import ConstFactory, FnV
+from pyvc.symexec import sorted_keys_fn
+ZERO_FN = z3.Const('as.zero', Fn)
+REG.add_class(ClassDecl('<ext>', 'EAMConfigView', {'eam_density': T.List(T.Obj('EAMTuple')), 'eam_embed': T.List(T.Obj('EAMTuple'))}, external=True))   # what the builder reads from its (filtered) parser
+cv_density = field('EAMConfigView', 'eam_density', ETL); cv_embed = field('EAMConfigView', 'eam_embed', ETL)
+sorted_strs = sorted_keys_fn(T.Str); StrArr = z3.ArraySort(StrS, BoolS)
+def sorted_axioms():
+    """A4: sorted(set of str): strictly increasing, exactly the members (for every set)"""
+    S = z3.Const('S!sa', StrArr); i, j = z3.Int('i!sa'), z3.Int('j!sa'); x = z3.String('x!sa'); ks = sorted_strs(S)
+    return [z3.ForAll([S, i, j], z3.Implies(z3.And(0 <= i, i < j, j < z3.Length(ks)), ks[i] < ks[j]), patterns=[z3.MultiPattern(ks[i], ks[j])]),
+            z3.ForAll([S, i], z3.Implies(z3.And(0 <= i, i < z3.Length(ks)), z3.Select(S, ks[i])), patterns=[ks[i]]),
+            z3.ForAll([S, x], z3.Implies(z3.Select(S, x), z3.Contains(ks, z3.Unit(x))), patterns=[z3.Select(S, x), z3.Contains(ks, z3.Unit(x))])]
+null_set = z3.Function('species_without_embedding', StrArr, ETL, StrArr)     # species with a density function but no embedding function
+def null_set_def():
+    H = z3.Const('H!ns', StrArr); rows = z3.Const('rows!ns', ETL); x = z3.String('x!ns')
+    return [z3.ForAll([H, rows, x], z3.Select(null_set(H, rows), x) == z3.And(z3.Contains(species_seq(rows, z3.Length(rows)), z3.Unit(x)), z3.Not(z3.Select(H, x))),
+                      patterns=[z3.Select(null_set(H, rows), x)])]
+def null_embed_set(old_has, rows): return null_set(old_has, rows)
+
+def _null_state(d, old_d, ks, k):
+    """after the first k zero-filled species: the old entries untouched, then ks[0..k) in that order, each with the zero function"""
+    x = z3.String('x!z'); j = z3.Int('j!z')
+    return [d.order == z3.Concat(old_d.order, z3.SubSeq(ks, 0, k)),
+            z3.ForAll([x], z3.Select(d.has, x) == z3.Or(z3.Select(old_d.has, x), z3.Exists([j], z3.And(0 <= j, j < k, ks[j] == x)))),
+            z3.ForAll([x], z3.Implies(z3.Select(old_d.has, x), z3.Select(d.get, x) == z3.Select(old_d.get, x))),
+            z3.ForAll([j], z3.Implies(z3.And(0 <= j, j < k), z3.Select(d.get, ks[j]) == ZERO_FN))]
+def _null_ks(v, old):
+    return sorted_strs(v.null_embed_species.has)
+REG.add(Contract(F_EB, 'EAM_Potential_Builder._add_null_embedding_functions',
+    params=[('self', T.Obj('EAM_Potential_Builder_O')), ('cp', T.Obj('EAMConfigView')), ('embed_dict', FnDict), ('density_dict', T.Dict(T.Str, T.Fn))], modifies=['embed_dict'],
+    ensures=lambda v, old, res: _null_state(v.embed_dict, old.embed_dict, sorted_strs(null_embed_set(old.embed_dict.has, cv_density(v.cp))), z3.Length(sorted_strs(null_embed_set(old.embed_dict.has, cv_density(v.cp))))),
+    post_names=['old-order-then-the-zero-filled-species-sorted', 'exactly-those-keys', 'old-entries-untouched', 'zero-function-for-the-new-ones'],
+    invariants={0: lambda v, old: _null_state(v.embed_dict, old.embed_dict, _null_ks(v, old), v._i0) + [v.null_embed_species.has == null_set(old.embed_dict.has, cv_density(v.cp))]},
+    abstract_globals={'zero': ConstFactory(FnV(ZERO_FN))}, instantiate_int_foralls=True, definitions=lambda: sorted_axioms() + null_set_def(),
+    carries=['post', 'preserve/0'], props=['C03', 'C12']))
+
+# zero densities for every species of the model that has none (the density dictionary is only ever looked up by key)
+def all_species_set(embed_has, rows):
+    """species with an embedding function (after zero filling) or a density function"""
+    x = z3.String('x!as')
+    return lambda x_: z3.Or(z3.Select(embed_has, x_), z3.Contains(species_seq(rows, z3.Length(rows)), z3.Unit(x_)))
+def _nd_state(d, old_d, member):
+    x = z3.String('x!nd')
+    return [z3.ForAll([x], z3.Select(d.has, x) == z3.Or(z3.Select(old_d.has, x), member(x))),
+            z3.ForAll([x], z3.Implies(z3.Select(old_d.has, x), z3.Select(d.get, x) == z3.Select(old_d.get, x))),
+            z3.ForAll([x], z3.Implies(z3.And(member(x), z3.Not(z3.Select(old_d.has, x))), z3.Select(d.get, x) == ZERO_FN))]
+def _nd_inv(v, old):
+    lst = keys_list_fn_str(v.all_species.has); j = z3.Int('j!ni')
+    return _nd_state(v.density_dict, old.density_dict, lambda x_: z3.Exists([j], z3.And(0 <= j, j < v._i0, lst[j] == x_))) + \
+           [z3.ForAll([z3.String('x!nj')], z3.Select(v.all_species.has, z3.String('x!nj')) == all_species_set(v.embed_dict.has, cv_density(v.cp))(z3.String('x!nj')))]
+from pyvc.symexec import keys_list_fn
+keys_list_fn_str = keys_list_fn(T.Str)
+REG.add(Contract(F_EB, 'EAM_Potential_Builder._add_null_density_functions',
+    params=[('self', T.Obj('EAM_Potential_Builder_O')), ('cp', T.Obj('EAMConfigView')), ('embed_dict', FnDict), ('density_dict', T.Dict(T.Str, T.Fn))], modifies=['density_dict'],
+    ensures=lambda v, old, res: _nd_state(v.density_dict, old.density_dict, all_species_set(v.embed_dict.has, cv_density(v.cp))),
+    post_names=['every-species-of-the-model-has-a-density', 'declared-densities-untouched', 'zero-density-for-the-others'],
+    invariants={0: _nd_inv}, abstract_globals={'zero': ConstFactory(FnV(ZERO_FN))}, instantiate_int_foralls=True,
+    carries=['post', 'preserve/0'], props=['C03', 'C12']))
+
+# ---------------------------------------------------------------- _init_eampotentials: one EAMPotential per element, in [EAM-Embed] order then the zero-filled species sorted
+from . import refdata as RDc
+from .eam_common import EAM
+_ebo = REG.classes['EAM_Potential_Builder_O']; _ebo.fields.update({'add_undefined': T.Bool, '_reference_data': T.Obj('Reference_Data')})
+eb_add = field('EAM_Potential_Builder_O', 'add_undefined', BoolS); eb_rd2 = field('EAM_Potential_Builder_O', '_reference_data', RDc.RD)
+REG.classes['EAM_Potential_Builder'].view_of = 'EAM_Potential_Builder_O'        # the getters' contracts (refdata.py) see the same object through their own class
+
+def element_order(s, cp):
+    """the statement's element order: the [EAM-Embed] entries in file order, then (when zero filling is on) the species that only have a
+    density function, sorted"""
+    E, D = cv_embed(cp), cv_density(cp)
+    base = species_seq(E, z3.Length(E))
+    return z3.If(eb_add(s), z3.Concat(base, sorted_strs(null_set(embed_members(E), D))), base)
+
+def _init_pre(v):
+    x = z3.String('x!wt')
+    return [distinct_species(cv_embed(v.cp), z3.Length(cv_embed(v.cp))), distinct_species(cv_density(v.cp), z3.Length(cv_density(v.cp))),
+            z3.ForAll([x], RDc.well_typed(eb_rd2(v.self), x))]
+def _init_inv(v, old):
+    j = z3.Int('j!ip'); od = v.embed_dict.order
+    return [z3.Length(v.potlist) == v._i0, od == element_order(v.self, v.cp),
+            z3.ForAll([j], z3.Implies(z3.And(0 <= j, j < v._i0), EAM['species'](v.potlist[j]) == od[j]))] + _dens_cover(v)
+def _dens_cover(v):
+    x = z3.String('x!dc')
+    return [z3.ForAll([x], z3.Implies(z3.Select(v.embed_dict.has, x), z3.Select(v.density_dict.has, x)))]
+def _init_post2(v, old, res):
+    j = z3.Int('j!iq'); od = element_order(v.self, v.cp)
+    return [z3.Length(res) == z3.Length(od), z3.ForAll([j], z3.Implies(z3.And(0 <= j, j < z3.Length(od)), EAM['species'](res[j]) == od[j]))]
+REG.add(Contract(F_EB, 'EAM_Potential_Builder._init_eampotentials',
+    params=[('self', T.Obj('EAM_Potential_Builder_O')), ('cp', T.Obj('EAMConfigView')), ('potential_form_registry', T.Obj('Registry')), ('modifier_registry', T.Obj('Registry'))],
+    requires=_init_pre, result=T.List(T.Obj('EAMPotential')), ensures=_init_post2,
+    post_names=['one-element-per-species', 'in-[EAM-Embed]-order-then-the-zero-filled-species-sorted'],
+    invariants={0: _init_inv}, ghost={'potlist': T.Obj('EAMPotential')}, instantiate_int_foralls=True,
+    raises_when=lambda v, old, exc: [z3.BoolVal(exc.cls in ('ConfigurationException', 'UnknownModifierException', 'UnknownPotentialFormException'))], on_raise=lambda v, old: [],
+    carries=['post', 'preserve/0', 'raises'], props=['C03', 'C12']))
